@@ -83,10 +83,22 @@ class RecSink:
 
 
 # ---------------------------------------------------------------- conversions
+class _Err:
+  def __repr__(self):
+    return 'SPEC-ERR'
+
+
+ERR = _Err()
+
+
 def to_py(t):
   k = t['k']
   if k == 'leaf':
     return t['v']
+  if k == 'err':
+    return ERR
+  if k == 'null':
+    return None
   if k == 'dict':
     return {n: to_py(c) for n, c in zip(t['keys'], t['kids'])}
   kids = [to_py(c) for c in t['kids']]
@@ -207,7 +219,8 @@ def run(prog, stream_py, **kw):
     res['err_chain'] = _chain(e)
     del e
   it = runner = None
-  gc.collect()
+  if any(s_.closed == 0 for s_ in sinks.values()):
+    gc.collect()      # a suspended generator chain held by a reference cycle
   res['sinks'] = {j: [a for a, _ in s.data] for j, s in sinks.items()}
   res['sinks_kw'] = {j: [k for _, k in s.data] for j, s in sinks.items()}
   res['closed'] = {j: s.closed for j, s in sinks.items()}
